@@ -131,6 +131,10 @@ struct Scn {
     chunk_size: usize,
     faults: Vec<NetFault>,
     orders: Orders,
+    /// the message uses ALL 65536 chunk ids: 65535 one-byte chunks and a last chunk with the rest
+    /// (the end of the 16-bit id range, in an otherwise well-formed message)
+    #[serde(default)]
+    all_ids: bool,
 }
 
 fn apply_fault(chunks: &mut Vec<ChunkSpec>, f: &NetFault) -> bool {
@@ -483,7 +487,19 @@ impl Check for C04Check {
             });
         }
         let orders = if n + 1 <= 6 { Orders::All } else { Orders::Structured { shuffles: 24, seed: r.next_u64() } };
-        serde_json::to_value(Scn { pwb, chunk_size: size, faults, orders }).unwrap()
+        if index % 9973 == 5 {
+            // the end of the chunk-id range: a full-size packet (79 channels x 511 samples, > 64 KiB) cut
+            // into 65535 one-byte chunks and a last chunk - fault-free, or with one seeded fault
+            let nb = boards::pwb_boards().len();
+            let pwb = PwbGen { board: r.usize(0, nb - 1), chip: r.below(4) as u8, channels: (1..=79).collect(), requested_samples: 511, sample_seed: r.next_u64(), kind: "valid".into() };
+            let faults = match r.below(4) {
+                0 => vec![NetFault::Drop(r.usize(0, 65535))],
+                1 => vec![NetFault::DupResent { i: r.usize(0, 65535), field: 0 }],
+                _ => vec![],
+            };
+            return serde_json::to_value(Scn { pwb, chunk_size: 1, faults, orders: Orders::Structured { shuffles: 2, seed: r.next_u64() }, all_ids: true }).unwrap();
+        }
+        serde_json::to_value(Scn { pwb, chunk_size: size, faults, orders, all_ids: false }).unwrap()
     }
 
     fn run(&self, scenario: &Value, stats: &mut Stats) -> Outcome {
@@ -564,6 +580,18 @@ fn run_on_caller_stack(scenario: &Value, stats: &mut Stats) -> Outcome {
         let payload = scn.pwb.payload();
         let b = &boards::pwb_boards()[scn.pwb.board % boards::pwb_boards().len()];
         let mut specs = chunk_message(b.device_id, scn.pwb.chip, 7, 3, &payload, scn.chunk_size);
+        if scn.all_ids && payload.len() > 65536 {
+            specs = chunk_message(b.device_id, scn.pwb.chip, 7, 3, &payload[..65535], 1);
+            if let Some(l) = specs.last_mut() {
+                l.flags &= !1;
+            }
+            let mut last = specs[0].clone();
+            last.chunk_id = 65535;
+            last.flags |= 1;
+            last.payload = payload[65535..].to_vec();
+            specs.push(last);
+            stats.probe("message_using_all_65536_chunk_ids");
+        }
         let n_sent = specs.len();
         let mut fired: Vec<&'static str> = Vec::new();
         for f in &scn.faults {
